@@ -28,6 +28,9 @@ def augment_exception_message_and_reraise(exception, message):
     proxy = None
   if proxy is None:
     raise exception
+  # Keep explicit chaining (`raise ... from ...`) of the original exception.
+  proxy.__cause__ = exception.__cause__
+  proxy.__suppress_context__ = exception.__suppress_context__
   raise proxy.with_traceback(exception.__traceback__)
 
 
